@@ -35,6 +35,18 @@ Definition c_den (inp : input) (e : rexpr) (ρ : env) : comp dval :=
   den (user_names inp) c_msem c_dotsem c_callsem c_await e ρ.
 Definition run_top (cfg : config) (c : comp dval) : comp val :=
   let! d := c in if is_async cfg then await_d c_await d else to_val d.
+(* tn = the name of the thread that evaluates the macro (None = an unnamed thread) *)
+Definition model_run_as (tn : option string) (cfg : config) (inp : input) (tbl : list opinfo) : list string :=
+  match gen cfg inp with
+  | Ok e => run_show tbl tn (run_top cfg (c_den inp e empty_env))
+  | ConfigError _ => ["<ConfigError>"]
+  | InternalBug _ => ["<InternalBug>"]
+  end.
+Definition spec_run_as (tn : option string) (cfg : config) (inp : input) (tbl : list opinfo) : list string :=
+  match prepare cfg inp with
+  | Some sp => run_show tbl tn (run_top cfg (spec c_msem c_dotsem c_callsem c_await sp))
+  | None => ["<NoSpec>"]
+  end.
 Definition model_run (cfg : config) (inp : input) (tbl : list opinfo) : list string :=
   match gen cfg inp with
   | Ok e => run_show tbl (Some "main") (run_top cfg (c_den inp e empty_env))
@@ -60,6 +72,10 @@ Definition check_mm (cfg : config) (inp : input) (tbl : list opinfo) : N :=
            end
   | d => d
   end.
+Definition check_rt_as (tn : option string) (cfg : config) (inp : input) (tbl : list opinfo) (observed : list string) : N :=
+  first_diff 0 (model_run_as tn cfg inp tbl) observed.
+Definition check_mm_as (tn : option string) (cfg : config) (inp : input) (tbl : list opinfo) : N :=
+  first_diff 0 (model_run_as tn cfg inp tbl) (spec_run_as tn cfg inp tbl).
 (* B: the model against what the compiled macro did *)
 Definition check_rt (cfg : config) (inp : input) (tbl : list opinfo) (observed : list string) : N :=
   first_diff 0 (model_run cfg inp tbl) observed.
